@@ -116,7 +116,7 @@ struct ThreadLog {
 	results: BTreeMap<String, u64>,
 	fails: Vec<String>,
 	heads: Vec<(Hash, u64)>,
-	perturb: [u64; 4],
+	perturb: [u64; 5],
 	height_mismatch: u64,
 }
 
@@ -126,6 +126,7 @@ struct Shared {
 	/// set once compaction has really pruned (then `Orphan` is a legitimate answer for old blocks)
 	compacted: AtomicBool,
 	in_flight: Vec<AtomicUsize>,
+	arrivals: AtomicUsize,
 }
 
 fn state_after(kit: &Kit, st: &BTreeMap<usize, (u64, bool)>, b: &Block) -> BTreeMap<usize, (u64, bool)> {
@@ -210,10 +211,25 @@ fn path_to(kit: &Kit, mut id: usize) -> Vec<usize> {
 	p
 }
 
-fn perturb(rng: &mut Rng, log: &mut ThreadLog) {
-	match rng.below(8) {
-		0 | 1 | 2 => {
+fn perturb(rng: &mut Rng, log: &mut ThreadLog, sh: &Shared, n: usize, slow: bool) {
+	if slow && rng.chance(1, 2) {
+		// readers / services of the long scenario: spread the fixed multiset over the deliverers' lifetime
+		std::thread::sleep(Duration::from_micros(rng.range(500, 4000)));
+	}
+	match rng.below(9) {
+		0 | 1 => {
 			log.perturb[0] += 1;
+		}
+		2 => {
+			// soft rendezvous: wait (bounded) until n arrivals have been counted since ours, so that
+			// several threads enter their next op at the same instant
+			let my = sh.arrivals.fetch_add(1, Ordering::SeqCst);
+			let target = (my / n + 1) * n;
+			let t0 = Instant::now();
+			while sh.arrivals.load(Ordering::SeqCst) < target && t0.elapsed() < Duration::from_micros(600) {
+				std::hint::spin_loop();
+			}
+			log.perturb[4] += 1;
 		}
 		3 | 4 => {
 			std::thread::yield_now();
@@ -245,7 +261,7 @@ fn cls<T>(r: &Result<T, grin_chain::Error>) -> String {
 fn exec(sh: &Shared, op: &Op, log: &mut ThreadLog, tid: usize) {
 	let c = &sh.chain;
 	let sc = &sh.sc;
-	let mut note = |log: &mut ThreadLog, k: String| {
+	let note = |log: &mut ThreadLog, k: String| {
 		*log.results.entry(k).or_insert(0) += 1;
 	};
 	match op {
@@ -693,9 +709,11 @@ fn run(out: &mut Out, rng: &mut Rng, work: &str, cfg: &RunCfg, stats: &mut BTree
 			sc: sc.clone(),
 			compacted: AtomicBool::new(false),
 			in_flight: (0..n).map(|_| AtomicUsize::new(usize::MAX)).collect(),
+		arrivals: AtomicUsize::new(0),
 		});
 		let progs = Arc::new(progs);
 		let logs: Arc<Vec<Mutex<ThreadLog>>> = Arc::new((0..n).map(|_| Mutex::new(ThreadLog::default())).collect());
+		let slow_readers = cfg.long;
 		let (txc, rxc) = mpsc::channel::<usize>();
 		let start_gate = Arc::new(AtomicBool::new(false));
 		let t0 = Instant::now();
@@ -714,7 +732,7 @@ fn run(out: &mut Out, rng: &mut Rng, work: &str, cfg: &RunCfg, stats: &mut BTree
 				}
 				let mut log = ThreadLog::default();
 				for (i, op) in progs[t].iter().enumerate() {
-					perturb(&mut trng, &mut log);
+					perturb(&mut trng, &mut log, &sh, n, slow_readers && t >= ndeliver);
 					sh.in_flight[t].store(i, Ordering::SeqCst);
 					let r = std::panic::catch_unwind(AssertUnwindSafe(|| exec(&sh, op, &mut log, t)));
 					if let Err(e) = r {
@@ -784,7 +802,7 @@ fn run(out: &mut Out, rng: &mut Rng, work: &str, cfg: &RunCfg, stats: &mut BTree
 			for (k, v) in &log.results {
 				*stats.entry(format!("result:{}", k)).or_insert(0) += v;
 			}
-			for (i, nm) in ["none", "yield", "sleep", "spin"].iter().enumerate() {
+			for (i, nm) in ["none", "yield", "sleep", "spin", "rendezvous"].iter().enumerate() {
 				*stats.entry(format!("perturb:{}", nm)).or_insert(0) += log.perturb[i];
 			}
 			*stats.entry("reader:head!=head_header(two snapshots)".into()).or_insert(0) += log.height_mismatch;
@@ -873,6 +891,75 @@ fn run(out: &mut Out, rng: &mut Rng, work: &str, cfg: &RunCfg, stats: &mut BTree
 	}
 }
 
+/// Tiny two-thread programs on the REAL lock objects of a Chain (the `Arc<RwLock<..>>` handed out
+/// by `Chain::txhashset()` / `Chain::header_pmmr()`), to check that the lock semantics the Lean
+/// model assumes are those of the implementation: an order inversion hangs, the ordered control
+/// finishes, a read-after-read by one thread hangs when a writer arrives in between and finishes
+/// when none does. A hang leaves the two threads blocked for ever (the process exits at the end).
+fn selftest(out: &mut Out, work: &str) {
+	let kit = Kit::new(&format!("{}/st_builder", work));
+	for which in ["inversion", "ordered", "reread", "reread-nowriter"] {
+		let dir = format!("{}/st_{}", work, which);
+		let _ = std::fs::remove_dir_all(&dir);
+		let chain = Arc::new(init_chain(&dir, kit.genesis.clone()).unwrap());
+		let (txc, rxc) = mpsc::channel::<usize>();
+		let flag = Arc::new(AtomicBool::new(false));
+		for t in 0..2usize {
+			let chain = chain.clone();
+			let txc = txc.clone();
+			let flag = flag.clone();
+			let which = which.to_string();
+			std::thread::spawn(move || {
+				setup_globals();
+				let ts = chain.txhashset();
+				let hp = chain.header_pmmr();
+				match (which.as_str(), t) {
+					("inversion", 0) => {
+						let _g1 = ts.write();
+						std::thread::sleep(Duration::from_millis(150));
+						let _g2 = hp.write();
+					}
+					("inversion", _) | ("ordered", _) => {
+						let _g1 = hp.write();
+						std::thread::sleep(Duration::from_millis(150));
+						let _g2 = ts.write();
+					}
+					("reread", 0) | ("reread-nowriter", 0) => {
+						let _g1 = ts.read();
+						flag.store(true, Ordering::SeqCst);
+						std::thread::sleep(Duration::from_millis(300));
+						let _g2 = ts.read();
+					}
+					("reread", _) => {
+						while !flag.load(Ordering::SeqCst) {
+							std::thread::yield_now();
+						}
+						let _g = ts.write();
+					}
+					_ => {
+						let _g = hp.write();
+					}
+				}
+				let _ = txc.send(t);
+			});
+		}
+		drop(txc);
+		let t0 = Instant::now();
+		let mut done = 0;
+		while done < 2 {
+			match rxc.recv_timeout(Duration::from_millis(2500).saturating_sub(t0.elapsed()).max(Duration::from_millis(1))) {
+				Ok(_) => done += 1,
+				Err(_) => break,
+			}
+		}
+		out.line(&format!("conc selftest {}", which), if done == 2 { "finished" } else { "hang" });
+		out.raw(&format!("#STAT selftest:{}={}", which, if done == 2 { "finished" } else { "hang(watchdog)" }));
+	}
+	out.flush();
+	// threads of the hanging cases are blocked for ever
+	std::process::exit(0);
+}
+
 fn main() {
 	quiet_panics();
 	setup_globals();
@@ -883,6 +970,10 @@ fn main() {
 	let mut out = Out::stdout();
 	let mut rng = Rng::new(seed_from_env() ^ 0xC17);
 	let mut stats: BTreeMap<String, u64> = BTreeMap::new();
+	if mode == "selftest" {
+		selftest(&mut out, &work);
+		return;
+	}
 
 	// what the harness assumes about the locking of the ops it drives (checked against the
 	// regenerated lock table by the driver)
@@ -911,6 +1002,8 @@ fn main() {
 		out.line(&format!("conc opclass {}", op), class);
 	}
 
+	out.line("conc tablecheck", "ok");
+
 	let thorough = tier_thorough();
 	let mut cfgs = vec![];
 	match mode {
@@ -927,9 +1020,9 @@ fn main() {
 				let threads = if thorough {
 					vec![2, 3, 4, 5, 6, 7, 8, 8, 4, 2]
 				} else if i == 0 {
-					vec![2, 4, 6, 8]
+					vec![2, 3, 4, 5, 6, 7, 8, 8]
 				} else {
-					vec![3, 5, 7, 8]
+					vec![8, 7, 6, 5, 4, 3, 2, 8]
 				};
 				cfgs.push(RunCfg { run: i, threads, long: false });
 			}
